@@ -85,6 +85,17 @@ class System:
         ver = snmp.dec_message(packet)["version"]
         return self.v3_agent.handle(packet) if ver == 3 else self.community_agent.handle(packet)
 
+    def close(self):
+        """leave every open block (a discarded generator-based context
+        manager would otherwise run its clean-up whenever the garbage
+        collector gets to it - possibly inside the library)"""
+        while self.blocks:
+            cm, _ = self.blocks.pop()
+            try:
+                cm.__exit__(None, None, None)
+            except Exception:  # noqa
+                pass
+
     # ------------------------------------------------------------------
     def fingerprint(self):
         c = self.client
@@ -318,7 +329,8 @@ def run_shard(params, acc):
     s0 = System()
     v0 = step(s0, first)
     on_transition((), first, s0, v0)
-    res = statespace.bfs(build, events, step, lambda s: s.fingerprint(), b["max_history"], on_transition=on_transition, roots=((first,),), probe=probe)
+    s0.close()
+    res = statespace.bfs(build, events, step, lambda s: s.fingerprint(), b["max_history"], on_transition=on_transition, roots=((first,),), probe=probe, dispose=lambda sm: sm.close())
     acc.count(evaluations=res.states, nontrivial=0, states=res.states, transitions=res.transitions + 1 + res.states)
     acc.maxi("max_depth", res.max_depth)
     acc.bump("request_probes", res.states)
@@ -339,6 +351,7 @@ def replay(case):
     out = []
     for ev in hist:
         out = step(sysm, ev)
+    sysm.close()
     return out
 
 
